@@ -18,9 +18,23 @@ SAFE_METHODS = {
     dict: ('get', 'items', 'keys', 'values', 'copy', 'setdefault', 'update', 'pop', 'clear'),
     set: ('add', 'update', 'discard', 'remove', 'copy', 'isdisjoint', 'issubset', 'issuperset', 'union', 'intersection', 'difference', 'pop', 'clear'),
     frozenset: ('isdisjoint', 'issubset', 'issuperset', 'union', 'intersection', 'difference', 'copy'),
-    str: ('startswith', 'endswith', 'join', 'format', 'strip', 'split', 'upper', 'lower', 'isupper', 'islower', 'isalnum', 'isdigit', 'isdecimal', 'replace', 'find', 'index', 'count'),
+    str: ('startswith', 'endswith', 'join', 'format', 'strip', 'split', 'upper', 'lower', 'isupper', 'islower', 'isalnum', 'isdigit', 'isdecimal', 'replace', 'find', 'index', 'count',
+          'splitlines', 'lstrip', 'rstrip', 'isalpha', 'isspace', 'partition', 'rpartition', 'rsplit', 'isidentifier', 'rfind', 'title', 'capitalize',
+          'ljust', 'rjust', 'center', 'zfill', 'removeprefix', 'removesuffix', 'istitle', 'isnumeric'),
     tuple: ('index', 'count'),
 }
+import io as _io
+import re as _re
+# values of the standard library that the evaluator lets a model hold: compiled patterns, match objects, string buffers
+SAFE_METHODS[_re.Match] = ('group', 'groups', 'start', 'end', 'span', 'groupdict')
+SAFE_METHODS[_re.Pattern] = ('fullmatch', 'match', 'search', 'split', 'findall', 'sub')
+SAFE_METHODS[_io.StringIO] = ('write', 'getvalue', 'close')
+RE_FUNCTIONS = ('fullmatch', 'match', 'search', 'split', 'findall', 'sub', 'compile', 'escape')
+# the part of the exception hierarchy the models meet
+EXC_PARENTS = {'KeyError': 'LookupError', 'IndexError': 'LookupError', 'LookupError': 'Exception', 'ZeroDivisionError': 'ArithmeticError', 'ArithmeticError': 'Exception',
+               'ValueError': 'Exception', 'TypeError': 'Exception', 'AssertionError': 'Exception', 'RuntimeError': 'Exception', 'StopIteration': 'Exception',
+               'AttributeError': 'Exception', 'NotImplementedError': 'RuntimeError', 'RecursionError': 'RuntimeError', 'UnicodeError': 'ValueError',
+               'Exception': 'BaseException'}
 import string as _string
 STD_CONSTANTS = {'string.ascii_uppercase': _string.ascii_uppercase, 'string.ascii_lowercase': _string.ascii_lowercase, 'string.ascii_letters': _string.ascii_letters, 'string.digits': _string.digits}
 BUILTINS = {
@@ -51,9 +65,22 @@ class Obj:
 
 
 class Raised(Exception):
-    def __init__(self, name):
+    def __init__(self, name, msg=None):
         Exception.__init__(self, name)
         self.name = name
+        self.msg = msg
+
+
+class ExcVal:
+    """the value bound by `except X as e` in a model: prints as its message"""
+
+    def __init__(self, name, msg):
+        self.name, self.msg = name, msg
+
+    def __str__(self):
+        return '' if self.msg is None else str(self.msg)
+
+    __repr__ = __str__
 
 
 class _Return(Exception):
@@ -322,10 +349,45 @@ class Interp:
             raise _Return(self.ev(f, st.value, env) if st.value is not None else None)
         if isinstance(st, ast.Raise):
             name = 'Exception'
+            msg = None
+            if st.exc is None:
+                cur = getattr(self, '_handling', None)
+                if cur:
+                    raise Raised(cur[-1].name, cur[-1].msg)
             if st.exc is not None:
+                if isinstance(st.exc, ast.Name) and isinstance(env.get(st.exc.id), ExcVal):
+                    raise Raised(env[st.exc.id].name, env[st.exc.id].msg)
                 e = st.exc.func if isinstance(st.exc, ast.Call) else st.exc
                 name = ast.unparse(e).split('.')[-1]
-            raise Raised(name)
+                if isinstance(st.exc, ast.Call) and len(st.exc.args) == 1 and not st.exc.keywords:
+                    try:
+                        msg = self.ev(f, st.exc.args[0], env)
+                    except Unsupported:
+                        msg = None
+            raise Raised(name, msg)
+        if isinstance(st, ast.Try):
+            try:
+                try:
+                    self.block(f, st.body, env)
+                except Raised as r:
+                    h = self._handler_for(st, r)
+                    if h is None:
+                        raise
+                    if h.name:
+                        env[h.name] = ExcVal(r.name, r.msg)
+                    if not hasattr(self, '_handling'):
+                        self._handling = []
+                    self._handling.append(r)
+                    try:
+                        self.block(f, h.body, env)
+                    finally:
+                        self._handling.pop()
+                else:
+                    self.block(f, st.orelse, env)
+            finally:
+                if st.finalbody:
+                    self.block(f, st.finalbody, env)
+            return
         if isinstance(st, ast.Assert):
             if not self.truth(self.ev(f, st.test, env)):
                 raise Raised('AssertionError')
@@ -358,6 +420,28 @@ class Interp:
                     raise Unsupported('del of ' + type(t).__name__)
             return
         raise Unsupported('statement ' + type(st).__name__)
+
+    @staticmethod
+    def _handler_for(st, r):
+        """the first handler of the try statement that catches the modelled exception (by name, along EXC_PARENTS)"""
+        chain = [r.name]
+        while chain[-1] in EXC_PARENTS:
+            chain.append(EXC_PARENTS[chain[-1]])
+        known = r.name in EXC_PARENTS or r.name == 'BaseException'
+        for h in st.handlers:
+            if h.type is None:
+                return h
+            ts = h.type.elts if isinstance(h.type, ast.Tuple) else [h.type]
+            for t in ts:
+                n = ast.unparse(t).split('.')[-1]
+                if n in chain:
+                    return h
+                if n in ('Exception', 'BaseException') and not known:
+                    # an exception class of the repository: assumed to derive from Exception (a BaseException subclass would be odd)
+                    return h
+                if n not in EXC_PARENTS and n != 'BaseException' and not known:
+                    raise Unsupported('exception class {} against handler {}'.format(r.name, n))
+        return None
 
     def assign(self, f, t, v, env):
         if isinstance(t, ast.Name):
@@ -484,6 +568,20 @@ class Interp:
                 return BUILTINS[e.id]
             if e.id in ('True', 'False', 'None'):
                 return {'True': True, 'False': False, 'None': None}[e.id]
+            try:
+                r0 = self.ctx.prog._lookup_in_module(f.module.name, e.id)
+            except Exception:
+                r0 = None
+            if r0 is not None and r0.kind == 'global':
+                # a module-level constant written as a literal (a tuple of directions, a set of keywords): its value
+                node0 = r0.target[0].globals.get(r0.target[1])
+                try:
+                    if isinstance(node0, ast.Call) and isinstance(node0.func, ast.Name) and node0.func.id in ('frozenset', 'set', 'tuple', 'list') and len(node0.args) == 1 and not node0.keywords:
+                        return {'frozenset': frozenset, 'set': set, 'tuple': tuple, 'list': list}[node0.func.id](ast.literal_eval(node0.args[0]))
+                    if node0 is not None:
+                        return ast.literal_eval(node0)
+                except (ValueError, TypeError, SyntaxError):
+                    pass
             return ('$name', e.id)          # a module-level name: resolved when called
         if isinstance(e, ast.Tuple):
             return tuple(self.ev(f, x, env) for x in e.elts)
@@ -577,7 +675,15 @@ class Interp:
             if isinstance(base, Obj):
                 if e.attr in base._f:
                     return base._f[e.attr]
+                if getattr(self, 'real_classes', False):
+                    found, v = self._class_attr(base._cls, e.attr)
+                    if found:
+                        return v
                 return ('$method', base, e.attr)
+            if isinstance(base, tuple) and base and base[0] == '$super':
+                return ('$supermethod', base[1], base[2], e.attr)
+            if isinstance(base, ExcVal) and e.attr == 'args':
+                return (base.msg,) if base.msg is not None else ()
             if isinstance(base, tuple) and base and base[0] == '$name':
                 full = base[1] + '.' + e.attr
                 consts = getattr(self, 'constants', None)
@@ -619,7 +725,22 @@ class Interp:
             if k.arg is None:
                 raise Unsupported('** argument')
             kwargs[k.arg] = self.ev(f, k.value, env)
+        if isinstance(e.func, ast.Name) and e.func.id == 'super' and not e.args and not e.keywords and getattr(self, 'real_classes', False):
+            if f.cls is None or not f.node.args.args or f.node.args.args[0].arg not in env:
+                raise Unsupported('super() outside a method')
+            return ('$super', env[f.node.args.args[0].arg], f.cls)
         fn = self.ev(f, e.func, env)
+        if isinstance(fn, tuple) and fn and fn[0] == '$supermethod':
+            _, obj0, cls0, name0 = fn
+            for b in cls0.base_names:
+                r0 = self.ctx.prog._lookup_in_module(cls0.module.name, b.split('.')[-1])
+                if r0 is not None and r0.kind == 'class':
+                    m0 = self.ctx.prog.find_method(r0.target, name0)
+                    if m0 is not None:
+                        return self.call(m0, [obj0] + args, kwargs)
+            if name0 == '__init__' and not args and not kwargs:
+                return None
+            raise Unsupported('super().{}'.format(name0))
         # python builtins of the model
         if fn in BUILTINS.values() and not isinstance(fn, tuple):
             try:
@@ -649,6 +770,12 @@ class Interp:
                 for c in self.ctx.prog.classes.values():
                     if c.name == base._cls and name in c.methods and not c.module.name.startswith('template:'):
                         return self.call(c.methods[name], [base] + args, kwargs)
+                if getattr(self, 'real_classes', False):
+                    for c in self.ctx.prog.classes.values():
+                        if c.name == base._cls and not c.module.name.startswith('template:'):
+                            m0 = self.ctx.prog.find_method(c, name)
+                            if m0 is not None:
+                                return self.call(m0, [base] + args, kwargs)
                 raise Unsupported('method {} of {}'.format(name, base._cls))
             if self.set_order is not None and isinstance(base, set) and name == 'pop' and not args:
                 if not base:
@@ -699,6 +826,8 @@ class Interp:
                     return any((n0 == gc0) if isinstance(n0, str) else isinstance(args[0], n0) for n0 in names)
                 if isinstance(args[0], Obj):
                     sup = getattr(self, 'superclasses', {}).get(args[0]._cls, ())
+                    if getattr(self, 'real_classes', False):
+                        sup = set(sup) | self.superclass_names(args[0]._cls)
                     return any(isinstance(n0, str) and (n0 == args[0]._cls or n0 in sup) for n0 in names)
                 pyts = tuple(n0 for n0 in names if not isinstance(n0, str))
                 if any(isinstance(n0, str) for n0 in names) and not isinstance(args[0], Obj):
@@ -707,7 +836,21 @@ class Interp:
                     raise Unsupported('isinstance in a finite model')
                 return isinstance(args[0], pyts)
             if short in ('print', 'log'):
+                if short == 'print' and getattr(self, 'printed', None) is not None:
+                    self.printed.append(kwargs.get('sep', ' ').join(str(a) for a in args))
                 return None
+            if name.startswith('re.') and short in RE_FUNCTIONS and f.module.imports.get('re', (None, None))[1] == 're':
+                for v0 in list(args) + list(kwargs.values()):
+                    if not isinstance(v0, (str, int, _re.Pattern)):
+                        raise Unsupported('argument of re.' + short)
+                try:
+                    return getattr(_re, short)(*args, **kwargs)
+                except _re.error:
+                    raise Raised('error')
+                except TypeError:
+                    raise Raised('TypeError')
+            if name in ('io.StringIO', 'StringIO') and not args and not kwargs:
+                return _io.StringIO()
             if short == 'defaultdict' and len(args) <= 1 and not kwargs:
                 import collections
                 fac = args[0] if args else None
@@ -778,6 +921,8 @@ class Interp:
             r = self.ctx.resolve_call(f, e)
             if r is not None and r.kind == 'func':
                 return self.call(r.target, args, kwargs)
+            if r is not None and r.kind == 'class' and getattr(self, 'real_classes', False) and hasattr(r.target, 'methods'):
+                return self.instantiate(r.target, args, kwargs)
             # a function handed around as a value: resolve the name it was taken from
             try:
                 r = self.ctx.prog.resolve_expr(f, f.module, ast.parse(name, mode='eval').body)
@@ -790,6 +935,53 @@ class Interp:
 
     def _raise(self, name):
         raise Raised(name)
+
+    # -- classes of the analysed tree (only with real_classes = True) ----------------------------------------------------
+    def instantiate(self, c, args, kwargs):
+        """an instance of a class of the analysed tree: a record whose __init__ (own or inherited) is evaluated"""
+        for b in c.base_names:
+            if b.split('.')[-1] in ('str', 'int', 'tuple', 'dict', 'list', 'set', 'frozenset', 'Exception', 'Enum', 'NamedTuple'):
+                raise Unsupported('class {} derives from {}'.format(c.name, b))
+        o = Obj(c.name)
+        init = self.ctx.prog.find_method(c, '__init__')
+        if init is not None:
+            self._call(init, [o] + list(args), kwargs)
+        elif args or kwargs:
+            raise Raised('TypeError')
+        return o
+
+    def _class_attr(self, cname, attr, seen=None):
+        """(found, value) of an attribute assigned in the body of the class or of a base class"""
+        seen = seen or set()
+        for c in self.ctx.prog.classes.values():
+            if c.name != cname or c.module.name.startswith('template:') or c.qualname in seen:
+                continue
+            seen.add(c.qualname)
+            for st in c.node.body:
+                if isinstance(st, ast.Assign) and any(isinstance(t, ast.Name) and t.id == attr for t in st.targets) or \
+                        isinstance(st, ast.AnnAssign) and isinstance(st.target, ast.Name) and st.target.id == attr and st.value is not None:
+                    holder = next(iter(c.methods.values()), None)
+                    if holder is None:
+                        raise Unsupported('class attribute of a class without methods')
+                    return True, self.ev(holder, st.value, {})
+            for b in c.base_names:
+                found, v = self._class_attr(b.split('.')[-1], attr, seen)
+                if found:
+                    return True, v
+        return False, None
+
+    def superclass_names(self, cname):
+        out, todo = set(), [cname]
+        while todo:
+            n = todo.pop()
+            for c in self.ctx.prog.classes.values():
+                if c.name == n and not c.module.name.startswith('template:'):
+                    for b in c.base_names:
+                        b = b.split('.')[-1]
+                        if b not in out:
+                            out.add(b)
+                            todo.append(b)
+        return out
 
     def call_closure(self, cl, args, kwargs):
         if any(isinstance(n, (ast.Yield, ast.YieldFrom)) for n in _walk_own(cl.node)):
